@@ -13,7 +13,10 @@ Inductive op :=
 | ONonneg | OSoft (t : Q) | OSoftArr (ts : M) | OL2sq (t : Q)
 | OL2 (t s : Q)                      (* s : rational approximation of tl.norm(tensor) supplied by the harness *)
 | OSmooth (t : Q) | OSimplex (p : Q) | OSoftSparsity (p : Q) | OMonotone (dec : bool) | OUnimodal
-| OHard (k : nat) | ONormSparsity (k : nat) (s : Q) | ONormalize.
+| OHard (k : nat) | ONormSparsity (k : nat) (s : Q) | ONormalize
+| OIdentity                          (* proximal_operator with no constraint registered for the selected mode *)
+| OSvt (t : Q) (U : M) (s : list Q) (V : M)   (* U, s, V : the answer of tl.truncated_svd on the input (tape) *)
+| OProcrustes (U : M) (s : list Q) (V : M).
 
 Definition run (o : op) (rows : M) : M :=
   match o with
@@ -30,6 +33,9 @@ Definition run (o : op) (rows : M) : M :=
   | OHard k => flatwise (hard_thresholding Qops k) rows
   | ONormSparsity k s => flatwise (normalized_sparsity_with Qops s k) rows
   | ONormalize => flatwise (normalize Qops) rows
+  | OIdentity => rows
+  | OSvt t U s V => svd_thresholding_with Qops U s V t
+  | OProcrustes U s V => procrustes_with Qops U V
   end.
 
 Fixpoint rows_close (atol rtol : Q) (a b : M) : bool :=
@@ -46,8 +52,17 @@ Definition norm_ok (s : Q) (v : list Q) : bool :=
   let ss := sumsq Qops v in
   Qle_bool 0 s && Qle_bool (Qabs (Qred (s * s - ss))) (Qred (ss * (1 # 1152921504606846976))).
 
+(* contract of the SVD tape (toleranced): U diag(s) V = input, U^T U = I, V V^T = I, s >= 0 *)
+Definition svd_tape_ok (atol rtol : Q) (U : M) (s : list Q) (V : M) (rows : M) : bool :=
+  let k := length s in
+  Nat.eqb (length V) k && forallb (fun r : list Q => Nat.eqb (length r) k) U
+  && forallb (fun x => Qle_bool 0 x) s
+  && rows_close atol rtol (mat_mul Qops U (scale_rows Qops s V)) rows
+  && rows_close (1 # 1000000000) 0 (mat_mul Qops (cols_of Qops U) U) (identity_mat Qops k)
+  && rows_close (1 # 1000000000) 0 (mat_mul Qops V (cols_of Qops V)) (identity_mat Qops k).
+
 (* exact certificates decided on the MODEL's output (so that the theorems of Proofs/ apply to it) *)
-Definition model_cert (o : op) (rows : M) : bool :=
+Definition model_cert (atol rtol : Q) (o : op) (rows : M) : bool :=
   let out := run o rows in
   match o with
   | OSmooth t => all2 (fun x v => q_list_eqb (sm_apply Qops t 0 x) v) (cols_of Qops out) (cols_of Qops rows)
@@ -56,6 +71,8 @@ Definition model_cert (o : op) (rows : M) : bool :=
   | OHard k => valid_ht Qops k (concat rows) (concat out)
   | OL2 t s => norm_ok s (concat rows)
   | ONormSparsity k s => norm_ok s (hard_thresholding Qops k (concat rows))
+  | OSvt _ U s V => svd_tape_ok atol rtol U s V rows
+  | OProcrustes U s V => svd_tape_ok atol rtol U s V rows
   | _ => true
   end.
 
@@ -83,12 +100,13 @@ Definition uni_ok (atol rtol eps : Q) (rows out : M) : bool :=
 Definition case := (nat * op * M * M * Q * Q)%type.
 Definition agree (c : case) : bool :=
   let '(_, o, rows, out, atol, rtol) := c in
-  model_cert o rows &&
+  model_cert atol rtol o rows &&
   match o with
   | OHard k => same_shape rows out && valid_ht Qops k (concat rows) (concat out)
                && (ht_tie k (concat rows) || rows_close 0 0 (run o rows) out)
   | ONormSparsity k s => if ht_tie k (concat rows) then same_shape rows out else rows_close atol rtol (run o rows) out
   | OUnimodal => uni_ok atol rtol (Qred (atol * 1000)) rows out
+  | OProcrustes _ _ _ => rows_close (1 # 1000000000) rtol (run o rows) out
   | _ => rows_close atol rtol (run o rows) out
   end.
 Definition ident (c : case) : nat := let '(i, _, _, _, _, _) := c in i.
